@@ -53,3 +53,25 @@ package fox
 
 //@ func (*cTx).Close props C12 partial
 //@   requires c != nil && c.tree != nil
+
+//@ -- ---------------------------------------------------------------- C12: Clone snapshots the current writer
+//@ fun wSize(w ResponseWriter, epoch int) int
+//@ fun hdrClone(h http.Header) http.Header
+//@ fun reqClone(r *http.Request) *http.Request
+//@ extern ResponseWriter.Size
+//@   ensures result == wSize(self, hCalls) && result >= 0
+//@ extern (Header).Clone in net/http pure
+//@   ensures result == hdrClone(h)
+//@ extern (*Request).Clone in net/http pure
+//@   ensures result == reqClone(r) && result != nil
+
+//@ func (*cTx).Clone props C12 partial
+//@   requires c != nil && c.req != nil && c.w != nil && c.params != nil && c.tsrParams != nil
+//@   modifies alloc
+//@   ensures fresh-copy: dyntypeIs(result, *cTx) && fresh(ctxOf(result)) && ctxOf(result) != c
+//@   ensures request: ctxOf(result).req == reqClone(c.req) && ctxOf(result).route == c.route && ctxOf(result).scope == c.scope && ctxOf(result).tsr == c.tsr && ctxOf(result).fox == c.fox && ctxOf(result).cachedQuery == nil
+//@   ensures current-writer: ctxOf(result).rec.status == wStatus(c.w, hCalls) && (ctxOf(result).rec.size == -1 <==> !wWritten(c.w, hCalls)) && (wWritten(c.w, hCalls) ==> ctxOf(result).rec.size == wSize(c.w, hCalls)) && !ctxOf(result).rec.hijacked
+//@   ensures own-headers: dyntypeIs(ctxOf(result).rec.ResponseWriter, noopWriter) && unbox(ctxOf(result).rec.ResponseWriter, noopWriter).h == hdrClone(wHeader(c.w, hCalls))
+//@   ensures own-writer: dyntypeIs(ctxOf(result).w, noUnwrap) && unbox(ctxOf(result).w, noUnwrap).ResponseWriter == box(&ctxOf(result).rec)
+//@   ensures own-params: !c.tsr ==> ctxOf(result).params != nil && fresh(ctxOf(result).params) && fresh(*ctxOf(result).params) && len(*ctxOf(result).params) == len(*c.params) && forall i int :: {(*ctxOf(result).params)[i]} 0 <= i && i < len(*c.params) ==> (*ctxOf(result).params)[i] == (*c.params)[i]
+//@   ensures own-tsr-params: c.tsr ==> ctxOf(result).tsrParams != nil && fresh(ctxOf(result).tsrParams) && fresh(*ctxOf(result).tsrParams) && len(*ctxOf(result).tsrParams) == len(*c.tsrParams) && forall i int :: {(*ctxOf(result).tsrParams)[i]} 0 <= i && i < len(*c.tsrParams) ==> (*ctxOf(result).tsrParams)[i] == (*c.tsrParams)[i]
